@@ -1,4 +1,4 @@
 SPECIFICATION Spec
 CHECK_DEADLOCK FALSE
 ALIAS Alias
-INVARIANTS C10_Binary C11_Binary C14_Binary C16_Binary C17_Binary C18_Binary C20_Binary
+INVARIANTS C08_Binary C10_Binary C11_Binary C14_Binary C16_Binary C17_Binary C18_Binary C20_Binary
